@@ -2,8 +2,8 @@ package compose
 
 import (
 	"context"
-	"fmt"
 	"errors"
+	"fmt"
 	"io"
 
 	"github.com/cloudwego/eino/components/tool"
